@@ -214,10 +214,12 @@ var c04ScopedTables = map[string]bool{"accounts": true, "transactions": true, "m
 
 func TestC04(t *testing.T) {
 	c := evid.New("C04")
-	c.Rule = "PARTIAL CLAIM (the plpgsql projection cannot be executed here). Six generated families: (a) read calls on ledgerstore.Store (15 methods x PIT / expand flags / filters incl. $and $or not / page sizes / positions) issued on two stores with different ledger names over one bucket and a recording driver; oracle: statement i of ledger 1 equals statement i of ledger 2 after replacing the string constant <name1> by <name2>, and every statement that names accounts, transactions, moves or logs carries the ledger name as a string constant; (b) ledger.ExpandTransaction and volume helpers on generated postings against the harness fold (delta of inputs/outputs per account and asset, sum of inputs == sum of outputs per asset); (c) storage.InMemoryStore fed with generated log sequences against the harness fold (balances, reverted flag, last log, last transaction, reference and idempotency-key lookups); (d) GetAggregatedBalances with generated point-in-time bounds and address filters (exact, wildcard segments, and/or/not) evaluated over a Go model of the moves table holding two ledgers and transactions whose effective date differs from their insertion date, against the fold of the entries of that ledger written up to the instant; (e) transactions read back with expand=volumes / effectiveVolumes (one by id, or a list): the rows a replay of a generated log of 1-6 multi-posting transactions defines (post-commit volumes by insertion order and by effective date, accounts repeated within a transaction, intermediaries, self-transfers, >64-bit amounts) are served through the recording driver, and the pre- and post-commit volumes the store reports must be the replay before and after each transaction. (f) metadata of transactions and accounts as of a point in time: a generated history (transactions with past / present / future effective dates, metadata set and deleted later) is turned into the revision rows the schema's history triggers keep, the point-in-time statements of GetTransactionWithVolumes / GetTransactions / GetAccountWithVolumes / GetAccountsWithVolumes (with and without a metadata filter) are evaluated over them by the mini SQL engine (joins, bounds, ORDER BY, LIMIT, DISTINCT ON) and compared with a replay of the history up to the instant; the transaction list is read page by page (1, 2, 3 or 50 per page) forward to the end and back to the start through its tokens: the concatenation must be the replay and every page must show on the way back what it showed on the way out. Non-trivial = (a) a call with a filter, PIT or expansion, (b) >=2 postings sharing an account, (c) a sequence with a revert, (d) a point-in-time bound or a filter, (e) an (account, asset) pair named more than once in a transaction, (f) a history with a metadata change or a transaction not yet effective at the instant; distinct by call description / postings / log sequence."
+	c.Rule = "PARTIAL CLAIM (the plpgsql projection cannot be executed here). Seven generated families: (a) read calls on ledgerstore.Store (15 methods x PIT / expand flags / filters incl. $and $or not / page sizes / positions) issued on two stores with different ledger names over one bucket and a recording driver; oracle: statement i of ledger 1 equals statement i of ledger 2 after replacing the string constant <name1> by <name2>, and every statement that names accounts, transactions, moves or logs carries the ledger name as a string constant; (b) ledger.ExpandTransaction and volume helpers on generated postings against the harness fold (delta of inputs/outputs per account and asset, sum of inputs == sum of outputs per asset); (c) storage.InMemoryStore fed with generated log sequences against the harness fold (balances, reverted flag, last log, last transaction, reference and idempotency-key lookups); (d) GetAggregatedBalances with generated point-in-time bounds and address filters (exact, wildcard segments, and/or/not) evaluated over a Go model of the moves table holding two ledgers and transactions whose effective date differs from their insertion date, against the fold of the entries of that ledger written up to the instant; (e) transactions read back with expand=volumes / effectiveVolumes (one by id, or a list): the rows a replay of a generated log of 1-6 multi-posting transactions defines (post-commit volumes by insertion order and by effective date, accounts repeated within a transaction, intermediaries, self-transfers, >64-bit amounts) are served through the recording driver, and the pre- and post-commit volumes the store reports must be the replay before and after each transaction. (f) metadata of transactions and accounts as of a point in time: a generated history (transactions with past / present / future effective dates, metadata set and deleted later) is turned into the revision rows the schema's history triggers keep, the point-in-time statements of GetTransactionWithVolumes / GetTransactions / GetAccountWithVolumes / GetAccountsWithVolumes (with and without a metadata filter) are evaluated over them by the mini SQL engine (joins, bounds, ORDER BY, LIMIT, DISTINCT ON) and compared with a replay of the history up to the instant; the transaction list is read page by page (1, 2, 3 or 50 per page) forward to the end and back to the start through its tokens: the concatenation must be the replay and every page must show on the way back what it showed on the way out. (g) comparison operators: the same list call (accounts, transactions, logs; list and count; with and without a point in time; the comparison alone or inside $and / $or / $not) made with two different operators of $lt $lte $gt $gte $match on balance, balance[ASSET], timestamp, reference or date must send statements that differ, and differ in comparison operators only. Non-trivial = (a) a call with a filter, PIT or expansion, (b) >=2 postings sharing an account, (c) a sequence with a revert, (d) a point-in-time bound or a filter, (e) an (account, asset) pair named more than once in a transaction, (f) a history with a metadata change or a transaction not yet effective at the instant, (g) both operators accepted; distinct by call description / postings / log sequence."
 	c.Assumptions = []string{"the SQL functions, triggers and views of 0-init-schema.sql are NOT executed: a defect confined to the .sql file is outside this check", "bun renders bound arguments into the statement text, so string constants are visible to the recording driver"}
 	runProp(t, c, func(rt *rapid.T) {
-		switch rapid.SampledFrom([]string{"isolation", "isolation", "volumes", "inmemory", "aggregated", "aggregated", "tx-volumes", "pit-metadata", "pit-metadata"}).Draw(rt, "family") {
+		switch rapid.SampledFrom([]string{"isolation", "isolation", "volumes", "inmemory", "aggregated", "aggregated", "tx-volumes", "pit-metadata", "pit-metadata", "operators"}).Draw(rt, "family") {
+		case "operators":
+			c04Operators(rt, c)
 		case "pit-metadata":
 			c04PITMetadata(rt, c)
 		case "aggregated":
